@@ -1,0 +1,197 @@
+//go:build verif
+// +build verif
+
+// Verification-only exports (build tag "verif"): a rendez-vous gate that lets a
+// harness drive the real receiveRoutine one input at a time, a recording
+// TimeoutTicker, and accessors for unexported state.  No consensus logic here.
+
+package pbft
+
+import (
+	"sync"
+	"time"
+
+	auto "github.com/dappledger/AnnChain/gemmill/modules/go-autofile"
+	sm "github.com/dappledger/AnnChain/gemmill/state"
+)
+
+// VerifGate is the rendez-vous between receiveRoutine and a harness.  At the
+// top of every loop iteration receiveRoutine sends on Idle and then waits for
+// Go; the harness places exactly one input before sending Go.
+type VerifGate struct {
+	Idle chan struct{}
+	Go   chan struct{}
+}
+
+// NewVerifGate makes a gate.
+func NewVerifGate() *VerifGate {
+	return &VerifGate{Idle: make(chan struct{}), Go: make(chan struct{})}
+}
+
+var verifGates sync.Map // *ConsensusState -> *VerifGate
+
+// SetVerifGate installs (or, with nil, removes) the gate of cs.
+func (cs *ConsensusState) SetVerifGate(g *VerifGate) {
+	if g == nil {
+		verifGates.Delete(cs)
+		return
+	}
+	verifGates.Store(cs, g)
+}
+
+func (cs *ConsensusState) verifIdle() {
+	v, ok := verifGates.Load(cs)
+	if !ok {
+		return
+	}
+	g := v.(*VerifGate)
+	g.Idle <- struct{}{}
+	<-g.Go
+}
+
+// VerifMsg is an opaque queue entry (msgInfo).
+type VerifMsg struct{ mi msgInfo }
+
+// NewVerifMsg wraps a consensus message for injection.
+func NewVerifMsg(msg ConsensusMessage, peerKey string) VerifMsg {
+	return VerifMsg{msgInfo{msg, peerKey}}
+}
+
+// Msg returns the wrapped consensus message.
+func (m VerifMsg) Msg() ConsensusMessage { return m.mi.Msg }
+
+// PeerKey returns the peer key ("" for internal messages).
+func (m VerifMsg) PeerKey() string { return m.mi.PeerKey }
+
+// VerifTakeInternal removes one entry of the internal queue without blocking.
+func (cs *ConsensusState) VerifTakeInternal() (VerifMsg, bool) {
+	select {
+	case mi := <-cs.internalMsgQueue:
+		return VerifMsg{mi}, true
+	default:
+		return VerifMsg{}, false
+	}
+}
+
+// VerifPutInternal places an entry on the internal queue.
+func (cs *ConsensusState) VerifPutInternal(m VerifMsg) { cs.internalMsgQueue <- m.mi }
+
+// VerifPutPeer places an entry on the peer queue.
+func (cs *ConsensusState) VerifPutPeer(m VerifMsg) { cs.peerMsgQueue <- m.mi }
+
+// VerifTakePeer removes one entry of the peer queue without blocking.
+func (cs *ConsensusState) VerifTakePeer() (VerifMsg, bool) {
+	select {
+	case mi := <-cs.peerMsgQueue:
+		return VerifMsg{mi}, true
+	default:
+		return VerifMsg{}, false
+	}
+}
+
+// VerifQueueLens returns the lengths of the peer and internal queues.
+func (cs *ConsensusState) VerifQueueLens() (peer, internal int) {
+	return len(cs.peerMsgQueue), len(cs.internalMsgQueue)
+}
+
+// VerifRoundState returns the live round state without taking the lock (the
+// harness only calls it while receiveRoutine is parked at the gate).
+func (cs *ConsensusState) VerifRoundState() *RoundState { return &cs.RoundState }
+
+// VerifState returns the live state pointer.
+func (cs *ConsensusState) VerifState() *sm.State { return cs.state }
+
+// VerifWALGroup returns the WAL's file group.
+func (cs *ConsensusState) VerifWALGroup() *auto.Group {
+	if cs.wal == nil {
+		return nil
+	}
+	return cs.wal.group
+}
+
+// VerifDone returns the channel closed when receiveRoutine has quit.
+func (cs *ConsensusState) VerifDone() <-chan struct{} { return cs.done }
+
+// SetVerifMsgQueueSize sets the package-level queue capacity used by
+// NewConsensusState and returns the previous value.
+func SetVerifMsgQueueSize(n int) int {
+	old := msgQueueSize
+	msgQueueSize = n
+	return old
+}
+
+// VerifTimeout is the exported view of a timeoutInfo.
+type VerifTimeout struct {
+	Duration time.Duration
+	Height   int64
+	Round    int64
+	Step     RoundStepType
+}
+
+// VerifTicker is a TimeoutTicker that records scheduled timeouts and fires
+// only when told.  It applies the same "ignore older height/round/step" filter
+// as timeoutTicker.timeoutRoutine.
+type VerifTicker struct {
+	mtx     sync.Mutex
+	last    timeoutInfo
+	pending []timeoutInfo // scheduled and not yet fired, oldest first
+	tock    chan timeoutInfo
+}
+
+// NewVerifTicker makes a recording ticker.
+func NewVerifTicker() *VerifTicker {
+	return &VerifTicker{tock: make(chan timeoutInfo, 1)}
+}
+
+func (t *VerifTicker) Start() (bool, error)     { return true, nil }
+func (t *VerifTicker) Stop() bool               { return true }
+func (t *VerifTicker) Chan() <-chan timeoutInfo { return t.tock }
+
+func (t *VerifTicker) ScheduleTimeout(newti timeoutInfo) {
+	t.mtx.Lock()
+	defer t.mtx.Unlock()
+	ti := t.last
+	if newti.Height < ti.Height {
+		return
+	} else if newti.Height == ti.Height {
+		if newti.Round < ti.Round {
+			return
+		} else if newti.Round == ti.Round {
+			if ti.Step > 0 && newti.Step <= ti.Step {
+				return
+			}
+		}
+	}
+	t.last = newti
+	t.pending = append(t.pending, newti)
+}
+
+// Pending lists the scheduled, not yet fired timeouts (oldest first; the last
+// entry is the one a real ticker would still have armed).
+func (t *VerifTicker) Pending() []VerifTimeout {
+	t.mtx.Lock()
+	defer t.mtx.Unlock()
+	out := make([]VerifTimeout, len(t.pending))
+	for i, ti := range t.pending {
+		out[i] = VerifTimeout{ti.Duration, ti.Height, ti.Round, ti.Step}
+	}
+	return out
+}
+
+// Fire moves pending[i] to the tock channel (capacity 1; the harness lets the
+// state machine consume it before firing again) and removes it.
+func (t *VerifTicker) Fire(i int) VerifTimeout {
+	t.mtx.Lock()
+	ti := t.pending[i]
+	t.pending = append(t.pending[:i:i], t.pending[i+1:]...)
+	t.mtx.Unlock()
+	t.tock <- ti
+	return VerifTimeout{ti.Duration, ti.Height, ti.Round, ti.Step}
+}
+
+// Drop removes pending[i] without firing it.
+func (t *VerifTicker) Drop(i int) {
+	t.mtx.Lock()
+	t.pending = append(t.pending[:i:i], t.pending[i+1:]...)
+	t.mtx.Unlock()
+}
